@@ -65,6 +65,7 @@ class Path:
         self.axioms = list(axioms)
         self.obligations = []
         self.symbols = {}           # name -> z3 const, for model extraction
+        self.ghost = {}             # ghost names introduced by factories
         self.notes = []
 
     def assume(self, term):
